@@ -22,3 +22,118 @@ Qed.
 
 Lemma prioritize_perm_l : forall l, Permutation (prioritize l) l.
 Proof. intro l. unfold prioritize. rewrite prioritize_go_perm. reflexivity. Qed.
+
+(* ------------------------------------------------------------------ _interleave_addrinfos *)
+Lemma group_add_perm a : forall gs, Permutation (concat (map snd (group_add a gs))) (a :: concat (map snd gs)).
+Proof.
+  induction gs as [|[f l] gs IH]; simpl.
+  - reflexivity.
+  - destruct (Z.eqb f (a_fam a)); simpl.
+    + rewrite <- app_assoc. simpl. symmetry. apply Permutation_middle.
+    + rewrite IH. symmetry. apply Permutation_middle.
+Qed.
+
+Lemma groups_fold_perm : forall l gs,
+  Permutation (concat (map snd (fold_left (fun gs a => group_add a gs) l gs))) (concat (map snd gs) ++ l).
+Proof.
+  induction l as [|a l IH]; intros gs; simpl.
+  - rewrite app_nil_r. reflexivity.
+  - rewrite IH. rewrite group_add_perm. simpl. apply Permutation_middle.
+Qed.
+
+Lemma groups_perm l : Permutation (concat (map snd (groups l))) l.
+Proof. unfold groups. rewrite groups_fold_perm. reflexivity. Qed.
+
+Lemma heads_tails_perm {A} : forall ls : list (list A), Permutation (heads ls ++ concat (map (@tl A) ls)) (concat ls).
+Proof.
+  unfold heads. induction ls as [|l ls IH]; simpl.
+  - reflexivity.
+  - destruct l as [|x t]; simpl.
+    + exact IH.
+    + constructor. rewrite <- IH. rewrite !app_assoc. apply Permutation_app_tail. apply Permutation_app_comm.
+Qed.
+
+Lemma heads_nil_concat {A} : forall ls : list (list A), heads ls = [] -> concat ls = [].
+Proof.
+  unfold heads. induction ls as [|l ls IH]; simpl; auto.
+  destruct l; simpl; [exact IH | discriminate].
+Qed.
+
+Lemma round_robin_perm {A} : forall fuel (ls : list (list A)), length (concat ls) <= fuel ->
+  Permutation (round_robin fuel ls) (concat ls).
+Proof.
+  induction fuel as [|f IH]; intros ls Hlen; simpl.
+  - destruct (concat ls); [reflexivity | simpl in Hlen; lia].
+  - destruct (heads ls) as [|h hs] eqn:E.
+    + rewrite (heads_nil_concat ls E). reflexivity.
+    + pose proof (heads_tails_perm ls) as Hp. rewrite E in Hp.
+      assert (Hl : length (concat (map (@tl A) ls)) <= f).
+      { apply Permutation_length in Hp. rewrite app_length in Hp. simpl in Hp. lia. }
+      rewrite <- Hp. change (h :: hs ++ round_robin f (map (@tl A) ls)) with ((h :: hs) ++ round_robin f (map (@tl A) ls)).
+      apply Permutation_app_head. apply IH. exact Hl.
+Qed.
+
+Lemma interleave_perm_l : forall l, Permutation (interleave l) l.
+Proof.
+  intro l. unfold interleave. rewrite round_robin_perm.
+  - apply groups_perm.
+  - rewrite (Permutation_length (groups_perm l)). lia.
+Qed.
+
+Lemma reorder_perm_l : forall l, Permutation (reorder l) l.
+Proof. intro l. unfold reorder. rewrite interleave_perm_l. apply prioritize_perm_l. Qed.
+
+(* ------------------------------------------------------------------ the first attempt is IPv6 when one exists *)
+Lemma prioritize_go_head : forall l v6 v4 acc,
+  (v6 = true -> exists b t, acc = b :: t /\ a_fam b = AF_INET6) ->
+  (v6 = true \/ exists a, In a l /\ a_fam a = AF_INET6) ->
+  exists b t, prioritize_go l v6 v4 acc = b :: t /\ a_fam b = AF_INET6.
+Proof.
+  induction l as [|a l IH]; intros v6 v4 acc Hacc Hex; simpl.
+  - destruct Hex as [H | (a & [] & _)]. apply Hacc. exact H.
+  - destruct (Z.eqb (a_fam a) AF_INET6) eqn:E6; simpl.
+    + destruct v6; simpl.
+      * (* already found: a is not inserted in front *)
+        destruct (Hacc eq_refl) as (b & t & -> & Hb).
+        destruct (Z.eqb (a_fam a) AF_INET && negb v4); simpl.
+        -- apply IH; [intros _; exists b, (a :: t); unfold insert_at; simpl; auto | left; reflexivity].
+        -- apply IH; [intros _; exists b, (t ++ [a]); simpl; auto | left; reflexivity].
+      * apply IH; [intros _; exists a, acc; unfold insert_at; simpl; split; [reflexivity | apply Z.eqb_eq; exact E6] | left; reflexivity].
+    + destruct (Z.eqb (a_fam a) AF_INET && negb v4 && v6) eqn:E4.
+      * apply andb_true_iff in E4. destruct E4 as [_ Hv6]. subst v6.
+        destruct (Hacc eq_refl) as (b & t & -> & Hb).
+        apply IH; [intros _; exists b, (a :: t); unfold insert_at; simpl; auto | left; reflexivity].
+      * apply IH.
+        -- intro Hv. destruct (Hacc Hv) as (b & t & -> & Hb). exists b, (t ++ [a]). simpl. auto.
+        -- destruct Hex as [H | (x & [-> | Hx] & Hf)]; [left; exact H | | right; exists x; auto].
+           exfalso. apply Z.eqb_neq in E6. auto.
+Qed.
+
+Lemma prioritize_head l : (exists a, In a l /\ a_fam a = AF_INET6) ->
+  exists b t, prioritize l = b :: t /\ a_fam b = AF_INET6.
+Proof. intro H. unfold prioritize. apply prioritize_go_head; [discriminate | right; exact H]. Qed.
+
+Lemma group_add_head a f b t gs : exists t' gs', group_add a ((f, b :: t) :: gs) = (f, b :: t') :: gs'.
+Proof. simpl. destruct (Z.eqb f (a_fam a)); simpl; eauto. Qed.
+
+Lemma groups_fold_head : forall l f b t gs,
+  exists t' gs', fold_left (fun gs a => group_add a gs) l ((f, b :: t) :: gs) = (f, b :: t') :: gs'.
+Proof.
+  induction l as [|a l IH]; intros f b t gs; cbn [fold_left].
+  - eauto.
+  - destruct (group_add_head a f b t gs) as (t' & gs' & E). rewrite E. apply IH.
+Qed.
+
+Lemma interleave_head b rest : exists t, interleave (b :: rest) = b :: t.
+Proof.
+  unfold interleave, groups. simpl fold_left.
+  destruct (groups_fold_head rest (a_fam b) b [] []) as (t' & gs' & E). rewrite E. simpl.
+  eexists. reflexivity.
+Qed.
+
+Lemma reorder_first_ipv6 l : (exists a, In a l /\ a_fam a = AF_INET6) ->
+  exists b t, reorder l = b :: t /\ a_fam b = AF_INET6.
+Proof.
+  intro H. destruct (prioritize_head l H) as (b & t & E & Hb). unfold reorder. rewrite E.
+  destruct (interleave_head b t) as (t' & E'). rewrite E'. eauto.
+Qed.
